@@ -239,3 +239,31 @@ func H_C09_copies_are_independent() {
 	}
 	verifReach("mutated")
 }
+
+// Snapshot ids stay valid whatever was reverted in between: an outer snapshot stays live while one, two
+// or three inner snapshots are taken and reverted ONE AFTER THE OTHER (the ids handed out keep growing,
+// so the stack of live revisions gets gaps: [0,2], [0,3]); each inner revert restores what the state
+// showed when that inner snapshot was taken, and the outer revert restores the original - no revert of
+// a live snapshot fails.
+//verif:opt unwind=16 budget_s=500
+func H_C09_snapshot_ids_stay_valid_after_inner_reverts() {
+	s, err := New(common.Hash{}, c09NewDB())
+	if err != nil {
+		panic(err)
+	}
+	c09Pre(s, verifCase(2))
+	before := c09Observe(s)
+	outer := s.Snapshot()
+	c09Mutate(s, 0) // which changes are made is the other harnesses' business: here the ids are
+	mid := c09Observe(s)
+	rounds := 1 + verifCase(3)
+	for r := 0; r < rounds; r++ {
+		inner := s.Snapshot()
+		c09Mutate(s, verifCase(2))
+		s.RevertToSnapshot(inner)
+		verifAssert(c09Same(mid, c09Observe(s)), "inner-revert-restores-what-the-inner-snapshot-saw")
+	}
+	s.RevertToSnapshot(outer)
+	verifReach("all-reverted")
+	verifAssert(c09Same(before, c09Observe(s)), "outer-revert-restores-the-original-after-inner-reverts")
+}
